@@ -20,17 +20,17 @@ CONSTANTS MaxT, MaxS, MaxL, Place, MetaOrder
 VARIABLES vshape, vpcn, vti, vt, vdata, vfile
 nvars == <<vshape, vpcn, vti, vt, vdata, vfile>>
 
-\* vshape = [nt, ns, nl (0 = two-dimensional output), ts ("index" | "label"), forcing ("ustar" | "z0")]
+\* vshape = [nt, ns, nl (0 = two-dimensional output), ts ("index" | "label" | "number": integers that are not the position), forcing ("ustar" | "z0")]
 NTw == vshape.nt
 NSt == vshape.ns
 Levels == IF vshape.nl = 0 THEN {0} ELSE 1..vshape.nl
 
 F(i, t, l) == <<"F", i, t, l>>                   \* footprint field of tower i, step t, level l ("C" likewise)
-TsOf(t) == IF vshape.ts = "index" THEN <<"idx", t - 1>> ELSE <<"lab", t>>
+TsOf(t) == IF vshape.ts = "index" THEN <<"idx", t - 1>> ELSE IF vshape.ts = "number" THEN <<"num", t>> ELSE <<"lab", t>>
 UstarOf(t) == IF vshape.forcing = "z0" THEN <<"nan">> ELSE <<"ustar", t>>
 
 NoTok == <<"empty">>
-Init == /\ vshape \in [nt : 1..MaxT, ns : 1..MaxS, nl : 0..MaxL, ts : {"index", "label"}, forcing : {"ustar", "z0"}]
+Init == /\ vshape \in [nt : 1..MaxT, ns : 1..MaxS, nl : 0..MaxL, ts : {"index", "label", "number"}, forcing : {"ustar", "z0"}]
         /\ vpcn = "alloc" /\ vti = 1 /\ vt = 1 /\ vdata = << >> /\ vfile = [saved |-> FALSE]
 
 Alloc == /\ vpcn = "alloc"                           \* np.zeros((n_time, n_towers, ...))
